@@ -218,6 +218,24 @@ func (i *MessagingMiddleware) interceptDecryptionKeys(
 		return nil, errors.Wrapf(err, "failed to get current decryption trigger for eon %d", originalMsg.Eon)
 	}
 
+	// The keys might belong to a different trigger than the current one (e.g., because another
+	// keyper requested a different set of identities or because the trigger has already been
+	// overridden). In this case, neither the signatures nor the tx pointer of the current
+	// trigger apply to them, so we drop the message.
+	identityPreimages := []identitypreimage.IdentityPreimage{}
+	for _, key := range originalMsg.Keys {
+		identityPreimages = append(identityPreimages, identitypreimage.IdentityPreimage(key.IdentityPreimage))
+	}
+	identitiesHash := computeIdentitiesHash(identityPreimages)
+	if !bytes.Equal(identitiesHash, trigger.IdentitiesHash) {
+		log.Warn().
+			Uint64("eon", originalMsg.Eon).
+			Hex("expectedIdentitiesHash", trigger.IdentitiesHash).
+			Hex("actualIdentitiesHash", identitiesHash).
+			Msg("intercepted decryption keys message with unexpected identities hash")
+		return nil, nil
+	}
+
 	keyperSet, err := obsKeyperDB.GetKeyperSetByKeyperConfigIndex(ctx, int64(originalMsg.Eon))
 	if err != nil {
 		return nil, errors.Wrapf(err, "failed to get keyper set from database for eon %d", originalMsg.Eon)
